@@ -91,6 +91,16 @@ def chk_matrix(c):
     y = A.dot(x)
     assert y.shape == (S.shape[0],), 'matvec result has shape %r, expected (%d,)' % (y.shape, S.shape[0])
     assert np.allclose(y, D.dot(x)), 'matvec differs from dense product'
+    # the object denotes its CURRENT data: replace the coefficients after a product has been computed, multiply again
+    data2 = rng.randint(1, 9, size=shape).astype(float) + 10.0
+    D2 = np.zeros(S.shape)
+    for combo, (I, J) in zip(itertools.product(*[range(n) for n in shape]), _expected(c)):
+        D2[I, J] += data2[combo]
+    A.data = data2
+    assert np.allclose(A.dot(x), D2.dot(x)), 'after assigning new data the matvec still uses the old coefficients'
+    assert np.array_equal(A.asmatrix().toarray(), D2), 'after assigning new data asmatrix() still uses the old coefficients'
+    A.data = data
+    assert np.allclose(A.dot(x), D.dot(x)), 'matvec after restoring the data'
     # from a matrix
     A2 = mlmatrix.MLMatrix(S, matrix=scipy.sparse.csr_matrix(D) if c.get('seed', 0) % 2 else D)
     assert np.array_equal(A2.asmatrix().toarray(), D) or len(set(_expected(c))) != len(_expected(c))
